@@ -12,13 +12,15 @@ func init() {
 		ID:         "C07",
 		Level:      "other",
 		Technique:  "effect-class rule over every merge function wired into a coder literal (overwrite / overwrite-if-set / copy-on-merge / append), accessor agreement with the codec siblings, shape rule over the reflection merge (static)",
-		Explain:    "Decides structural necessary conditions of `Merge equals concatenated decoding`: (1) in every coder literal the merge function uses the same Go accessor as the marshal/unmarshal functions and has the effect class of the field's cardinality, matching what decoding a second occurrence does: repeated coders append to the destination (never overwrite), singular coders assign through the destination accessor, zero-skipping coders assign only under a test of the source value, byte strings are copied (never shared with the source), pointer scalars are copied into a fresh variable; (2) the reflection merge appends list elements, upserts map entries, merges singular messages into the existing (Mutable) submessage, clones byte strings, and appends the source's unknown fields after the destination's; the fast-path mergePointer appends unknown fields the same way.",
-		NotCovered: "the three-way equivalence on values (Merge vs. decode of concatenation vs. UnmarshalOptions{Merge}); oneof replacement order; extension merging through lazily decoded values.",
-		Quick:      all("./internal/impl", "./proto"),
+		Explain:    "Decides structural necessary conditions of `Merge equals concatenated decoding`: (1) in every coder literal the merge function uses the same Go accessor as the marshal/unmarshal functions and has the effect class of the field's cardinality, matching what decoding a second occurrence does: repeated coders append to the destination (never overwrite), singular coders assign through the destination accessor, zero-skipping coders assign exactly for the values their append sibling encodes (zero test including the sign of -0.0), byte strings are copied (never shared with the source), pointer scalars are copied into a fresh variable; (2) the reflection merge appends list elements, upserts map entries, merges singular messages into the existing (Mutable) submessage, clones byte strings, and appends the source's unknown fields after the destination's; the fast-path mergePointer appends unknown fields the same way; (3) the oneof merge replaces the destination's wrapper unless it holds the identical member; (4) decoded and merged map entries replace existing entries (values are built with NewValue and Set, never obtained with Mutable).",
+		NotCovered: "the three-way equivalence on values (Merge vs. decode of concatenation vs. UnmarshalOptions{Merge}); extension merging through lazily decoded values.",
+		Quick:      all("./internal/impl", "./proto", "./encoding/protojson", "./encoding/prototext"),
 		Thorough:   all("./..."),
 		Run: func(c *Ctx) {
 			c.ruleMergeClass("R-MERGE-CLASS", 60)
 			c.ruleMergeReflect("R-MERGE-REFLECT")
+			c.ruleOneofMerge("R-ONEOF-MERGE")
+			c.ruleMapReplace("R-MAP-REPLACE")
 		},
 	})
 }
@@ -193,11 +195,11 @@ func (c *Ctx) ruleMergeClass(rule string, floor int) {
 						}
 					}
 					if noZero {
-						sp, _ := g.posOf(as)
-						_ = sp
 						guarded := g.DominatedByCond(as, func(core ast.Expr, val bool) bool { return usesAny(ginfo, core, srcObj, defs) })
 						if !guarded {
 							bad = append(bad, "an implicit-presence field is overwritten unconditionally: merging an unset (zero) source clears the destination")
+						} else if msg := c.mergeGuardAgrees(fm, fg, as); msg != "" {
+							bad = append(bad, msg)
 						}
 					}
 				}
@@ -317,5 +319,215 @@ func (c *Ctx) ruleMergeReflect(rule string) {
 			return true
 		})
 		R.Check(ok, rule, fi.Key+" unknown", P.Pos(fi.Decl), "*du = append(*du, *su...)", "the fast-path merge does not append the source's unknown bytes to the destination's")
+	}
+}
+
+// zero-test evaluation over value classes: "z" (+0 / "" / empty), "nz", and for floats "-0".
+func evalZeroCond(info *types.Info, e ast.Expr, class string) (bool, bool) {
+	e = unparen(e)
+	switch x := e.(type) {
+	case *ast.UnaryExpr:
+		if x.Op == token.NOT {
+			v, ok := evalZeroCond(info, x.X, class)
+			return !v, ok
+		}
+	case *ast.BinaryExpr:
+		switch x.Op {
+		case token.LAND, token.LOR:
+			a, okA := evalZeroCond(info, x.X, class)
+			b, okB := evalZeroCond(info, x.Y, class)
+			if !okA || !okB {
+				return false, false
+			}
+			if x.Op == token.LAND {
+				return a && b, true
+			}
+			return a || b, true
+		case token.EQL, token.NEQ, token.GTR:
+			// v == 0, v != 0, v == "", len(v) == 0, len(v) > 0, v == false
+			isZeroConst := false
+			if c, ok := constInt(info, x.Y); ok && c == 0 {
+				isZeroConst = true
+			}
+			if tv, ok := info.Types[x.Y]; ok && tv.Value != nil && (tv.Value.ExactString() == `""` || tv.Value.ExactString() == "false" || tv.Value.ExactString() == "0") {
+				isZeroConst = true
+			}
+			if !isZeroConst {
+				return false, false
+			}
+			valueIsZero := class == "z" || class == "-0" // -0.0 == 0 in Go; an empty/zero value compares equal to the zero constant
+			switch x.Op {
+			case token.EQL:
+				return valueIsZero, true
+			case token.NEQ, token.GTR:
+				return !valueIsZero, true
+			}
+		}
+	case *ast.CallExpr:
+		if calleeKey(info, x) == "math.Signbit" {
+			return class == "-0", true // nz taken as positive: sign only matters for the zero classes here
+		}
+	case *ast.Ident:
+		// bool value `v` used directly: if v { … }
+		if b, ok := info.TypeOf(x).Underlying().(*types.Basic); ok && b.Kind() == types.Bool {
+			return class == "nz", true
+		}
+	}
+	return false, false
+}
+
+// mergeGuardAgrees: the merge function assigns exactly for the value classes
+// the append function encodes (a value the encoder treats as populated must be
+// merged, and vice versa).
+func (c *Ctx) mergeGuardAgrees(fm, fg *FuncInfo, assign *ast.AssignStmt) string {
+	minfo, ginfo := fm.Info(), fg.Info()
+	// append's skip guard: `if COND { return b, nil }`
+	var skip ast.Expr
+	for _, st := range fm.Decl.Body.List {
+		if is, ok := st.(*ast.IfStmt); ok && is.Else == nil && len(is.Body.List) == 1 {
+			if rs, ok := is.Body.List[0].(*ast.ReturnStmt); ok && len(rs.Results) == 2 && isNilIdent(minfo, rs.Results[1]) {
+				skip = is.Cond
+			}
+		}
+	}
+	// merge's assign guard: the innermost enclosing if of the assignment
+	var guard ast.Expr
+	walk(fg.Decl.Body, func(n ast.Node) bool {
+		if is, ok := n.(*ast.IfStmt); ok && containsNode(is.Body, assign) {
+			guard = is.Cond
+		}
+		return true
+	})
+	if skip == nil || guard == nil {
+		return ""
+	}
+	classes := []string{"z", "nz"}
+	isFloat := false
+	walk(skip, func(n ast.Node) bool {
+		if call, ok := n.(*ast.CallExpr); ok && calleeKey(minfo, call) == "math.Signbit" {
+			isFloat = true
+		}
+		return true
+	})
+	if !isFloat {
+		// float accessor without a sign test on the append side is judged by R-SIZE-APPEND; here use the accessor type
+		for a := range c.coderFacts(fm).accessors {
+			if strings.HasPrefix(a, "Float") {
+				isFloat = true
+			}
+		}
+	}
+	if isFloat {
+		classes = append(classes, "-0")
+	}
+	for _, cl := range classes {
+		sk, ok1 := evalZeroCond(minfo, skip, cl)
+		gd, ok2 := evalZeroCond(ginfo, guard, cl)
+		if !ok1 || !ok2 {
+			return ""
+		}
+		if gd == sk {
+			what := map[string]string{"z": "the zero value", "nz": "a non-zero value", "-0": "negative zero (-0.0)"}[cl]
+			if sk {
+				return "for " + what + " the encoder skips the field but merge assigns it"
+			}
+			return "for " + what + " the encoder treats the field as populated (it is marshaled) but merge does not copy it: Merge(dst, src) differs from decoding Marshal(dst)||Marshal(src)"
+		}
+	}
+	return ""
+}
+
+// R-ONEOF-MERGE: merging a oneof calls the source member's merge function on a
+// destination wrapper of that same member: either the destination already
+// holds the identical member (identity of the per-member coder info) or a new
+// wrapper is allocated first.
+func (c *Ctx) ruleOneofMerge(rule string) {
+	R, P := c.R, c.P
+	R.Rule(rule, "in the oneof merge closure of initOneofFieldCoders the call of the source member's merge function is dominated by the establishment that destination and source hold the identical member (`dstinfo == srcinfo` on the member coder infos returned by getInfo) or by the allocation of a new wrapper of the source's member", 1)
+	fi := c.need(rule, "internal/impl.(*MessageInfo).initOneofFieldCoders")
+	if fi == nil {
+		return
+	}
+	info := fi.Info()
+	n := 0
+	for _, br := range bodiesOf(fi) {
+		if br.Lit == nil {
+			continue
+		}
+		// the merge closure: signature (dst, src pointer, _ *coderFieldInfo, opts mergeOptions)
+		sig, ok := info.TypeOf(br.Lit).(*types.Signature)
+		if !ok || sig.Params().Len() != 4 || namedTypeName(sig.Params().At(3).Type()) != "internal/impl.mergeOptions" {
+			continue
+		}
+		defs := localDefs(br.Body, info)
+		isInfoVar := func(e ast.Expr) bool {
+			o := objOf(info, e)
+			for _, d := range defs[o] {
+				if d.idx == 1 {
+					if call, ok := unparen(d.rhs).(*ast.CallExpr); ok {
+						if id, ok := call.Fun.(*ast.Ident); ok && id.Name == "getInfo" {
+							return true
+						}
+					}
+				}
+			}
+			return false
+		}
+		g := newCFG(br.Body, info)
+		walk(br.Body, func(x ast.Node) bool {
+			call, ok := x.(*ast.CallExpr)
+			if !ok {
+				return true
+			}
+			se, ok := call.Fun.(*ast.SelectorExpr)
+			if !ok || se.Sel.Name != "merge" || len(call.Args) != 4 {
+				return true
+			}
+			n++
+			good := g.DominatedByCondOrNode(call, func(core ast.Expr, val bool) bool {
+				be, ok := unparen(core).(*ast.BinaryExpr)
+				if !ok || !isInfoVar(be.X) || !isInfoVar(be.Y) {
+					return false
+				}
+				return (be.Op == token.NEQ && !val) || (be.Op == token.EQL && val)
+			}, func(nd ast.Node) bool {
+				return containsCall(info, nd, "reflect.New") != nil && containsCall(info, nd, "reflect.Value.Set") != nil
+			})
+			R.Check(good, rule, br.Name+" member merge", P.Pos(call), "same member established or new wrapper allocated", "the source member's merge function can run on a destination wrapper of a different member (the test does not compare member identity): merging replaces neither the active member nor its field number")
+			return true
+		})
+	}
+	if n == 0 {
+		R.Unk(rule, fi.Key, P.Pos(fi.Decl), "oneof merge closure not found")
+	}
+}
+
+// R-MAP-REPLACE: a decoded or merged map entry replaces the existing entry
+// (protobuf map semantics: last entry wins, values are not merged).
+func (c *Ctx) ruleMapReplace(rule string) {
+	R, P := c.R, c.P
+	R.Rule(rule, "every function that stores map entries with protoreflect.Map.Set while decoding or merging builds message values with Map.NewValue and never obtains them with Map.Mutable(key): an entry with a repeated key replaces the previous value instead of being merged into it", 4)
+	for _, pkg := range []string{"proto", "internal/impl", "encoding/protojson", "encoding/prototext"} {
+		for _, fi := range P.FuncsIn(pkg) {
+			if fi.Decl.Body == nil {
+				continue
+			}
+			info := fi.Info()
+			has := func(key string) *ast.CallExpr {
+				var out *ast.CallExpr
+				walkAll(fi.Decl.Body, func(n ast.Node) bool {
+					if call, ok := n.(*ast.CallExpr); ok && calleeKey(info, call) == key {
+						out = call
+					}
+					return true
+				})
+				return out
+			}
+			if has("reflect/protoreflect.Map.Set") == nil {
+				continue
+			}
+			mut := has("reflect/protoreflect.Map.Mutable")
+			R.Check(mut == nil, rule, fi.Key, P.Pos(fi.Decl), "entries are built fresh and Set", "a map entry's message value is obtained with Map.Mutable(key): a repeated key is merged into the existing entry instead of replacing it")
+		}
 	}
 }
